@@ -276,6 +276,11 @@ def fix_ptm(molecule):
         resid_to_idxs[residx].append(n_idx)
     resid_to_idxs = dict(resid_to_idxs)
 
+    def residue_label(resid):
+        # Atoms of the residue may have been removed along the way.
+        idx = next(idx for idx in resid_to_idxs[resid] if idx in molecule)
+        return '{resname}{resid}'.format(**molecule.nodes[idx])
+
     # Keep track of all nodes that get removed due to unknown PTMs
     removed = set()
 
@@ -313,8 +318,7 @@ def fix_ptm(molecule):
         except KeyError:
             LOGGER.warning('Could not identify the modifications for'
                            ' residues {}, involving atoms {}',
-                           ['{resname}{resid}'.format(**molecule.nodes[resid_to_idxs[resid][0]])
-                            for resid in sorted(set(resids))],
+                           [residue_label(resid) for resid in sorted(set(resids))],
                            ['{atomid}-{atomname}'.format(**molecule.nodes[idx])
                             for idxs in res_ptms for idx in idxs[0]],
                            type='unknown-input')
@@ -328,8 +332,7 @@ def fix_ptm(molecule):
         # residue(s); and a single PTM can span multiple residues.
         LOGGER.info("Identified the modifications {} on residues {}",
                     [out[0].graph['name'] for out in identified],
-                    ['{resname}{resid}'.format(**molecule.nodes[resid_to_idxs[resid][0]])
-                     for resid in resids])
+                    [residue_label(resid) for resid in resids])
         for ptm, match in identified:
             ptm.match = match
             for mol_idx, ptm_idx in match.items():
